@@ -301,7 +301,8 @@ theorem manualLoop_geo {tb : List (Nat × BTR)} {manual : List ManualEdge} (ms :
       · cases h
     · cases h
 
-theorem succLoop_geo {tb : List (Nat × BTR)} {manual : List ManualEdge} {k : Nat} {R : BTR} (hkR : (k, R) ∈ tb)
+theorem succLoop_geo {tb : List (Nat × BTR)} {manual : List ManualEdge} (hc : Coherent tb manual)
+    {k : Nat} {R : BTR} (hkR : (k, R) ∈ tb)
     (ss : List (Nat × Option Expr)) (hsub : ∀ s ∈ ss, s ∈ R.succs) {bx bl : Nat} {pbl : Nat × Nat}
     (hlast : lastAddr R = some bl)
     {st st1 : AsmState} {ren : Nat → Nat → Nat} (G : Geo tb manual st ren) (hbi : BI tb st)
@@ -328,6 +329,11 @@ theorem succLoop_geo {tb : List (Nat × BTR)} {manual : List ManualEdge} {k : Na
           unfold reqSuccs
           refine List.mem_flatMap.mpr ⟨(k, R), hkR, List.mem_filterMap.mpr ⟨(sa, sc), hsub _ List.mem_cons_self, ?_⟩⟩
           simp [t1, hlast, t2]
+        -- under coherence an existing edge between the two blocks already carries this guard: nothing is merged
+        have hl : linkIfAbsent st.cfg bx be sc = .ok c := by
+          apply linkOrMerge_as_linkIfAbsent _ hl
+          intro e he hh ht
+          exact geo_boundary_cond hc G (lookup_some_mem hpl) (lookup_some_mem t4) hq he (by rw [hh, hbx]) (by rw [ht, t6.1])
         obtain ⟨G2, e2, hd2⟩ := geo_link_bi G hq hpl t4 hbx t6.1 hl
         have hbi2 : BI tb { st with cfg := c } := hbi.mono rfl (fun _ _ hv => hv)
         obtain ⟨G1, e1, hbi1, hd1⟩ := ih (fun x hx => hsub x (List.mem_cons_of_mem _ hx)) G2 hbi2 hpl h
@@ -367,7 +373,7 @@ theorem succsLoop_geo {tb : List (Nat × BTR)} {manual : List ManualEdge} (hc : 
           rw [this] at h1; exact (Option.some.inj h1).symm
         subst this
         simp only [Prod.mk.injEq] at h6
-        obtain ⟨G2, e2, hbi2, hd2⟩ := succLoop_geo hkR R'.succs (fun _ h => h) h3 G hbi h5 h6.2 hs
+        obtain ⟨G2, e2, hbi2, hd2⟩ := succLoop_geo hc hkR R'.succs (fun _ h => h) h3 G hbi h5 h6.2 hs
         obtain ⟨G1, e1, hbi1, hd1⟩ := ih (fun q hq => hsub q (List.mem_cons_of_mem _ hq)) G2 hbi2 h
         refine ⟨G1, e2.trans e1, hbi1, ?_⟩
         intro p hp s hs' t a' b' ht ha hb
